@@ -58,6 +58,11 @@ template<> struct lenient_serde<std::string> : serde<std::string> {
 static std::string clean(const std::string& s) {
   std::string r; for (char c : s) r += (c == '"' || c == '\\' || (unsigned char)c < 32) ? ' ' : c; return r;
 }
+// weight REGIME of a segment: every offered weight is (integer) * g_unit with g_unit a power of two (1/1024 .. 2^20), so that
+// streams of weights all below 1, all above 10^6, or mixed stay exactly representable; logged weights are divided by it
+static double g_unit = 1.0;
+static unsigned long g_segs = 0, g_seed0 = 0; static bool g_fix_unit = false;
+static void next_unit() { static const double U[] = {1.0, 1.0 / 1024, 1.0, 1048576.0, 1.0 / 64, 1.0}; g_unit = g_fix_unit ? 1.0 : U[(g_segs++ + g_seed0) % 6]; }
 static void intres(double v, long long& r, long long& res) {
   r = std::llround(v); double d = std::fabs(v - (double)r) * 1e6; res = d > 1e6 ? 1000000 : std::llround(d);
 }
@@ -81,7 +86,7 @@ template<class S, class T, class F> static void traverse(const S& s, int idiom, 
 }
 template<class C> static std::string proj(const var_opt_sketch<typename C::T>& s, int idiom = 0) {
   std::vector<long long> xs; std::vector<double> ws;
-  traverse(s, idiom, (const typename C::T*)nullptr, [&xs, &ws](const typename C::T& it, double w) { if (xs.size() < 100000) { xs.push_back(C::id(it)); ws.push_back(w); } });
+  traverse(s, idiom, (const typename C::T*)nullptr, [&xs, &ws](const typename C::T& it, double w) { if (xs.size() < 100000) { xs.push_back(C::id(it)); ws.push_back(w / g_unit); } });
   size_t m = xs.size();
   std::vector<long long> wI(m), g(m), gw, gres; std::vector<double> gval; std::vector<int> gcnt;
   for (size_t i = 0; i < m; i++) {
@@ -116,6 +121,7 @@ template<class C> struct Seg {
   int nextId = 1;
   long maxk;
   explicit Seg(vt::Rng& g_, long maxk_) : g(g_), maxk(maxk_) {
+    next_unit();
     for (int i = 0; i < NS; i++) { restored[i] = fromUnion[i] = false; prof[i] = 0; total[i] = 0; giantAt[i] = 0; }
     for (int u = 0; u < NU; u++) { urestored[u] = false; utotal[u] = 0; }
   }
@@ -168,12 +174,21 @@ template<class C> struct Seg {
   void opUpdateX(int i, int id, long w, bool rv) {
     wt[id] = (int)w; T item = C::item(id);
     std::string threw;
-    try { if (rv) sk[i]->update(std::move(item), (double)w); else sk[i]->update(item, (double)w); }
+    try { if (rv) sk[i]->update(std::move(item), (double)w * g_unit); else sk[i]->update(item, (double)w * g_unit); }
     catch (std::exception& ex) { threw = clean(ex.what()); if (threw.empty()) threw = "exception"; }
     ids[i].push_back(id); total[i] += w;
     Ev e("Update"); e.i("id", i).i("x", id).i("w", w).b("rv", rv); tag(e, i);
     if (!threw.empty()) { e.str("threw", threw); e.emit(); drop(i); return; }
     e.raw("s", proj<C>(*sk[i])).emit();
+  }
+  // an update with weight 0 is ignored: no observable may change (n, emptiness, sample; the image is compared at the next Ser/Deser)
+  void opUpdateZero(int i) {
+    std::string threw; bool rv = g.chance(40); T item = C::item(2000000 + nextId);
+    try { if (rv) sk[i]->update(std::move(item), 0.0); else sk[i]->update(item, 0.0); }
+    catch (std::exception& ex) { threw = clean(ex.what()); if (threw.empty()) threw = "exception"; }
+    Ev e("UpdateZero"); e.i("id", i).b("rv", rv); tag(e, i);
+    if (!threw.empty()) { e.str("threw", threw).emit(); return; }
+    e.b("empty", sk[i]->is_empty()).raw("s", proj<C>(*sk[i])).emit();
   }
   void opUpdateInvalid(int i) {
     static const double BAD[] = {-1.0, -0.5, NAN, INFINITY, -INFINITY};
@@ -203,7 +218,7 @@ template<class C> struct Seg {
       Ev r("x"); r.s = "{\"p\":\""; r.s += PS[j].name; r.s += "\"";
       r.d("lb", ss.lower_bound).d("est", ss.estimate).d("ub", ss.upper_bound).d("tw", ss.total_sketch_weight);
       if (kind == 0) {
-        long long a, ares, b, bres; intres(ss.estimate, a, ares); intres(ss.total_sketch_weight, b, bres);
+        long long a, ares, b, bres; intres(ss.estimate / g_unit, a, ares); intres(ss.total_sketch_weight / g_unit, b, bres);
         r.i("estI", a).i("estRes", ares).i("twI", b).i("twRes", bres);
       }
       r.s += "}"; if (j) sub += ","; sub += r.s;
@@ -390,7 +405,7 @@ template<class C> struct Seg {
         if (canUpdate(i)) opUpdate(i, fromUnion[i] ? g.range(1, 30) : drawW(i), g.chance(40));
         else if (g.chance(50)) opReset(i); else opObs(i);
       } else if (op < upd + 4) opObs(i);
-      else if (op < upd + 5) opUpdateInvalid(i);
+      else if (op < upd + 5) { if (g.chance(50)) opUpdateInvalid(i); else { opUpdateZero(i); if (g.chance(30)) { int b = (int)g.below(NB); serTrack(i, b); if (blob[b].live && !blob[b].isUnion) deserTrack(b, (int)g.below(NS), -1); } } }
       else if (op < upd + 6) { if (g.chance(40)) opNewInvalid(); else if (g.chance(25)) opReset(i); }
       else if (op < upd + 8) { int j = (int)g.below(NS); if (j != i) opCopy(i, j); }
       else if (op < upd + 9) { int j = (int)g.below(NS); opNew(j, drawK()); }
@@ -609,13 +624,14 @@ template<class C> struct Seg {
       if (state == 1) opUpdate(0, 5, false);
       if (state == 2) { for (int t = 0; t < 7; t++) opUpdate(0, 1 + t % 3, false); opObs(0); opReset(0); }
       opObs(0);
+      opUpdateZero(0); opObs(0);
       serTrack(0, 0); if (!blob[0].live) continue;
       deserTrack(0, 1, 0); deserTrack(0, 2, 1);
       for (int j = 1; j <= 2; j++) if (sk[j]) opObs(j);
       for (int t = 0; t < (int)k + 6; t++) {
         int id = nextId++; long w = g.range(1, 9); bool rv = g.chance(40);
         for (int j = 0; j <= 2; j++) if (sk[j]) opUpdateX(j, id, w, rv);
-        if (t == 0 || t == (int)k || t == (int)k + 5) for (int j = 0; j <= 2; j++) if (sk[j]) opObs(j);
+        if (t == 0 || t == (int)k || t == (int)k + 5) for (int j = 0; j <= 2; j++) if (sk[j]) { opUpdateZero(j); opObs(j); }
       }
       for (int j = 0; j <= 2; j++) if (sk[j]) { serTrack(j, 1 + j % 3); }
       // as union operands: the bytes-restored one and the original into two unions next to the same fresh sketch
@@ -718,6 +734,40 @@ static void stat_event(vt::Rng& g, uint64_t seed, int which, bool uni) {
   e.raw("preds", ps).raw("est", es).emit();
 }
 
+// inclusion of the FIRST items arriving after a checkpoint operation on an estimation-mode sketch: a pure reservoir (n items of
+// one weight, k < n) is copied / assigned / restored (or left alone), then `arrivals` more items of the same weight arrive;
+// each of them must end up in the sample with probability k / (n + arrivals).  T seeded runs per checkpoint kind.
+static void stat_incl_event(vt::Rng& g, uint64_t seed, int which) {
+  const int T = 1000; static const char* const HOW[] = {"none", "copy-ctor", "copy-assign", "move-ctor", "move-assign", "deser-bytes", "deser-stream"};
+  typedef var_opt_sketch<int64_t> SK;
+  int k = (int)g.range(2, 8), n = k + (int)g.range(1, 30), arrivals = 1 + (which % 2); double w = (double)g.range(1, 9);
+  std::string cs = "["; std::string threw;
+  for (int how = 0; how < 7 && threw.empty(); how++) {
+    std::vector<long long> count((size_t)arrivals, 0);
+    for (int t = 0; t < T && threw.empty(); t++) try {
+      random_utils::override_seed(seed * 1000003ULL + (uint64_t)which * 104729ULL + (uint64_t)how * 7919ULL + (uint64_t)t);
+      SK a((uint32_t)k); for (int i = 1; i <= n; i++) a.update((int64_t)i, w);
+      std::unique_ptr<SK> b;
+      switch (how) {
+        case 0: b.reset(new SK(std::move(a))); b.reset(); b.reset(new SK((uint32_t)k)); for (int i = 1; i <= n; i++) b->update((int64_t)i, w); break;
+        case 1: b.reset(new SK(a)); break;
+        case 2: b.reset(new SK((uint32_t)(k + 1))); b->update((int64_t)-5, 2.0); *b = a; break;
+        case 3: b.reset(new SK(std::move(a))); break;
+        case 4: b.reset(new SK((uint32_t)(k + 1))); b->update((int64_t)-5, 2.0); *b = std::move(a); break;
+        case 5: { auto bytes = a.serialize(); b.reset(new SK(SK::deserialize(bytes.data(), bytes.size()))); break; }
+        default: { std::stringstream ss; a.serialize(ss); b.reset(new SK(SK::deserialize(ss))); break; }
+      }
+      for (int j = 1; j <= arrivals; j++) b->update((int64_t)(n + j), w);
+      for (auto p : *b) if (p.first > n && p.first <= n + arrivals) count[(size_t)(p.first - n - 1)]++;
+    } catch (std::exception& ex) { threw = clean(ex.what()); if (threw.empty()) threw = "exception"; }
+    Ev a("x"); a.s = ""; a.il("c", count); if (how) cs += ","; cs += a.s.substr(a.s.find('['));
+  }
+  cs += "]";
+  std::string hs = "["; for (int how = 0; how < 7; how++) { if (how) hs += ","; hs += "\""; hs += HOW[how]; hs += "\""; } hs += "]";
+  Ev e("StatIncl"); if (!threw.empty()) e.str("threw", threw);
+  e.i("T", T).i("k", k).i("n", n).i("arrivals", arrivals).raw("how", hs).raw("counts", cs).emit();
+}
+
 int main(int argc, char** argv) {
   vt::install_terminate();
   uint64_t seed = (uint64_t)vt::argl(argc, argv, "--seed", 1);
@@ -731,7 +781,7 @@ int main(int argc, char** argv) {
   vt::open_out(vt::arg(argc, argv, "--out", "/dev/stdout"));
   vt::Rng g0(seed); g0.next(); vt::Rng g(g0.next() >> 1);   // consecutive seeds of vt::Rng are shifted copies of one stream: decorrelate
   random_utils::override_seed(seed);
-  long segno = 0;
+  long segno = 0; g_seed0 = (unsigned long)seed; g_fix_unit = design != 0;
   if (directed) {
     { Ev("Begin").i("seg", segno++).str("type", "i64").str("kind", "directed-tie").emit(); Seg<ConvI> s(g, maxk); s.directedTie(); }
     { Ev("Begin").i("seg", segno++).str("type", "str").str("kind", "directed-pseudo-exact").emit(); Seg<ConvS> s(g, maxk); s.directedPseudoExact(); }
@@ -762,7 +812,9 @@ int main(int argc, char** argv) {
   }
   if (stats > 0) {
     Ev("Begin").i("seg", segno++).str("type", "i64").str("kind", "stat").emit();
+    g_unit = 1.0;
     for (long j = 0; j < stats; j++) stat_event(g, seed, (int)j, j % 2 == 1);
+    for (long j = 0; j < stats; j++) stat_incl_event(g, seed, (int)j);
   }
   vt::close_out();
   fprintf(stderr, "varopt_rec: %ld events\n", vt::g_events);
